@@ -32,6 +32,7 @@ import (
 	"github.com/luraproject/lura/v2/router/httptreemux"
 	"github.com/luraproject/lura/v2/router/mux"
 	"github.com/luraproject/lura/v2/router/negroni"
+	"github.com/luraproject/lura/v2/transport/http/client/graphql"
 
 	"verif/harness/internal/emit"
 	"verif/harness/internal/out"
@@ -47,6 +48,33 @@ var missedOnce bool
 type beSpec struct {
 	h, q   []string
 	static string // raw query written in url_pattern ("" = none)
+	gql    string // "" plain backend, "post" / "get": GraphQL query operation over that transport
+	gqlVar int    // which operation (with / without operationName and variables)
+}
+
+// extra_config of a GraphQL backend
+func gqlExtra(b beSpec) config.ExtraConfig {
+	m := map[string]interface{}{"type": "query", "method": b.gql, "query": "query Hero($ep: String) { hero(episode: $ep) { name } }"}
+	if b.gqlVar&1 == 1 {
+		m["operationName"] = "Hero"
+	}
+	if b.gqlVar&2 == 2 {
+		m["variables"] = map[string]interface{}{"ep": "JEDI & co", "n": 3}
+	}
+	return config.ExtraConfig{graphql.Namespace: m}
+}
+
+// the parameters the GET transport generates for the operation (C07's subject; an input here)
+func gqlParams(b beSpec) map[string][]string {
+	opt, err := graphql.GetOptions(gqlExtra(b))
+	if err != nil {
+		panic(err)
+	}
+	q, err := graphql.New(*opt).QueryFromParams(map[string]string{})
+	if err != nil {
+		panic(err)
+	}
+	return q
 }
 
 type cfgSpec struct {
@@ -72,6 +100,7 @@ type observation struct {
 	rawQuery string
 	query    map[string][]string
 	parseErr string
+	bodyLen  int
 }
 
 func cp(l []string) []string {
@@ -167,11 +196,15 @@ func buildRunner(cs cfgSpec) *runner {
 		if b.static != "" {
 			pat += "?" + b.static
 		}
-		ep.Backend = append(ep.Backend, &config.Backend{
+		be := &config.Backend{
 			URLPattern:         pat,
 			HeadersToPass:      cp(b.h),
 			QueryStringsToPass: cp(b.q),
-		})
+		}
+		if b.gql != "" {
+			be.ExtraConfig = gqlExtra(b)
+		}
+		ep.Backend = append(ep.Backend, be)
 	}
 	sc := config.ServiceConfig{
 		Version:   config.ConfigVersion,
@@ -201,6 +234,10 @@ func buildRunner(cs cfgSpec) *runner {
 			o := observation{be: i, headers: map[string][]string{}, rawQuery: req.URL.RawQuery}
 			for k, vs := range req.Header {
 				o.headers[k] = append([]string{}, vs...)
+			}
+			if req.Body != nil {
+				body, _ := io.ReadAll(req.Body)
+				o.bodyLen = len(body)
 			}
 			q, err := url.ParseQuery(req.URL.RawQuery)
 			o.query = q
@@ -419,8 +456,15 @@ func knownIP(lines [][2]string) bool {
 }
 
 type gen struct {
-	w   *out.Writer
-	cfg out.Config
+	w     *out.Writer
+	cfg   out.Config
+	ticks int
+}
+
+// every fourth call (thins the wire-level twin of the exhaustive stream)
+func (g *gen) tick() bool {
+	g.ticks++
+	return g.ticks%4 == 0
 }
 
 // run one configuration against several requests and emit one case per executor call
@@ -478,18 +522,25 @@ func (g *gen) emit(stream string, cs cfgSpec, rq reqSpec, o observation, status 
 			if knownIP(rq.lines) {
 				ip = emit.Some(emit.Str(remoteIP))
 			}
-			term := emit.App("COut", cs.adapter, emit.StrList(cs.epH), emit.StrList(cs.epQ), emit.StrList(b.h), emit.StrList(b.q),
+			ctor := "COut"
+			switch b.gql {
+			case "post":
+				ctor = "CGql " + emit.App("GPost", emit.Str(fmt.Sprint(o.bodyLen)))
+			case "get":
+				ctor = "CGql " + emit.App("GGet", emit.MultiMap(gqlParams(b)))
+			}
+			term := emit.App(ctor, cs.adapter, emit.StrList(cs.epH), emit.StrList(cs.epQ), emit.StrList(b.h), emit.StrList(b.q),
 				pairList(parsePairs(b.static)), pairList(rq.lines), pairList(rq.query), emit.Str(rq.host), ip, emit.Str(core.KrakendUserAgent),
 				emit.MultiMap(o.headers), emit.MultiMap(o.query))
 			js := map[string]interface{}{
 				"adapter": cs.adapter, "method": cs.method, "concurrent_calls": cs.concurrent, "sequential_merge": cs.sequential,
 				"endpoint_input_headers": cs.epH, "endpoint_input_query_strings": cs.epQ,
 				"backend_index": o.be, "backends": len(cs.bes),
-				"backend_input_headers": b.h, "backend_input_query_strings": b.q, "backend_url_pattern_query": b.static,
+				"backend_input_headers": b.h, "backend_input_query_strings": b.q, "backend_url_pattern_query": b.static, "backend_graphql": b.gql, "backend_graphql_variant": b.gqlVar,
 				"request":  map[string]interface{}{"header_lines": rq.lines, "raw_query": rawQuery(rq.query), "query_pairs": rq.query, "host": rq.host, "body": rq.body, "remote_addr": remoteIP + ":4711"},
-				"observed": map[string]interface{}{"executor_headers": o.headers, "executor_raw_query": o.rawQuery, "executor_query": o.query, "parse_error": o.parseErr, "client_status": status},
+				"observed": map[string]interface{}{"executor_headers": o.headers, "executor_raw_query": o.rawQuery, "executor_body_length": o.bodyLen, "executor_query": o.query, "parse_error": o.parseErr, "client_status": status},
 			}
-			canon := fmt.Sprintf("%s|%s|%d%v|%q|%q|%d/%d|%q|%q|%q|%q|%q|%q|%q", cs.adapter, cs.method, cs.concurrent, cs.sequential, cs.epH, cs.epQ, o.be, len(cs.bes), b.h, b.q, b.static, rq.lines, rq.query, rq.host, rq.body)
+			canon := fmt.Sprintf("%s|%s|%d%v|%q|%q|%d/%d|%q|%q|%q|%q|%q|%q|%q", cs.adapter, cs.method, cs.concurrent, cs.sequential, cs.epH, cs.epQ, o.be, len(cs.bes), b.h, b.q, b.static+"|"+b.gql+fmt.Sprint(b.gqlVar), rq.lines, rq.query, rq.host, rq.body)
 			nontrivial := len(cs.epH)+len(cs.epQ)+len(b.h)+len(b.q) > 0
 			g.w.Count("stream:" + stream)
 			g.w.Count("adapter:" + cs.adapter)
@@ -508,6 +559,21 @@ func (g *gen) emit(stream string, cs cfgSpec, rq reqSpec, o observation, status 
 				g.w.Count("static_query")
 			}
 			g.w.Add(term, js, "", canon, nontrivial)
+			// the same call at the wire level (RawQuery text), where the query is involved at all
+			if b.gql != "" {
+				g.w.Count("graphql:" + b.gql)
+			}
+			if b.gql == "" && (len(cs.epQ) > 0 || b.static != "") && (stream != "exhaustive" || g.tick()) {
+				wterm := emit.App("CWire", cs.adapter, emit.StrList(cs.epH), emit.StrList(cs.epQ), emit.StrList(b.h), emit.StrList(b.q),
+					emit.Str(b.static), pairList(parsePairs(b.static)), pairList(rq.lines), pairList(rq.query), emit.Str(rq.host), emit.Str(core.KrakendUserAgent),
+					emit.Str(o.rawQuery), emit.MultiMap(o.query))
+				wjs := map[string]interface{}{"level": "wire", "stream": stream}
+				for k, v := range js {
+					wjs[k] = v
+				}
+				g.w.Count("stream:" + stream + ":wire")
+				g.w.Add(wterm, wjs, "", "wire|"+canon, nontrivial)
+			}
 		}
 	}
 }
@@ -563,6 +629,7 @@ func main() {
 	exhaustive(g)
 	random(g, r)
 	canonCases(g, r)
+	codecCases(g, r)
 	reuseConcurrent(g) // last: the only stream whose case order is not needed by a deterministic replay
 
 	w.Meta["child_processes_died"] = childCrashes
@@ -570,5 +637,7 @@ func main() {
 		"instance reuse: ONE router+stack per configuration serving telling sequences of 5-6 different requests (stream reuse-seq, deterministic) and hit from 8 goroutines over 12 distinct requests (stream reuse-conc, each distinct request/observation pair once); "+
 		"corpus (section-8 defects, wildcard positions, gateway-owned names, literal * in backend lists); exhaustive: endpoint list x backend list over {A,B,*,\"\" (empty name)} up to length 2 (21x21; lists with the empty name x 5 of the 8 subsets, with the empty-named parameter ?=v), used for headers and query at once, x client sending every subset of {A,B,C} (adapter rotating; thorough: every adapter, and lists up to length 3 over {A,B} with duplicates x backend lists); "+
 		"random: lists up to 6 (mixed case, duplicates, wildcard), 0-7 header lines, 0-6 query pairs with repeated/empty/reserved values, static url_pattern queries, 1-3 backends with parallel or sequential merge, concurrent_calls 1-3, GET/POST (endpoints with several backends or concurrent calls run in child processes; a dead child becomes failing cases with the crash text); "+
+		"GraphQL backends (query operation, POST and GET transport, with/without operationName and variables) in corpus and random; "+
+		"wire level: for calls that involve the query, the RawQuery text against the byte-level model of Values.Encode/ParseQuery (pieces compared as a multiset: Encode sorts keys), url.QueryEscape on every byte and random strings, url.QueryUnescape and url.ParseQuery on malformed texts (bad escapes, semicolons, empty pieces, several =); "+
 		"plus textproto.CanonicalMIMEHeaderKey on every single byte, every string up to 3 over a 9-symbol alphabet and random names; nontrivial = some list declared", true)
 }
